@@ -156,7 +156,7 @@ func CheckC09(c *Ctx) (*Outcome, error) {
 	// phase B: histories
 	hmk := func(i int) ([]*History, error) {
 		rng := c.Rng("c09-history", i)
-		h := DrawHistory(c, rng, HistoryOpts{MaxSteps: 4, Faults: true, Corrupt: true, Relocate: true, EnvVariants: true, RandomOrder: true})
+		h := DrawHistory(c, rng, HistoryOpts{MaxSteps: 4, Faults: true, Corrupt: true, Relocate: true, EnvVariants: true, RandomOrder: true, TornHeader: rng.IntN(2) == 0})
 		if i < 4 {
 			c.Stats.Sample(map[string]any{"history_ops": DescribeOps(h)}, 10)
 		}
